@@ -1,5 +1,6 @@
 import LeptosModel.Model.AsyncPause
 import LeptosModel.Proofs.Async
+import LeptosModel.Proofs.AsyncPause
 /-!
 # Theorems/C10Pause — the async derived under a paused owner (C10, `Model/AsyncPause`)
 
@@ -130,5 +131,109 @@ paused poll (`Dirty` with the channel flag cleared), an invariant for `stepP` is
 def C10_resume_then_write_settles_open : Prop :=
   ∀ (c : Cfg) (es : List PEvent), (runP false c es).missed = false → settled (runP false c es).s = true →
     (runP false c es).s.loading = false ∧ (runP false c es).s.value = expected (runP false c es).s
+
+/-! ## histories with ONE pause: the partial of `C10_resume_then_write_settles_open` -/
+
+/-- ordinary events with the owner running are the steps of `Model/Async` -/
+theorem stepP_running (p : PState) (hp : p.paused = false) (e : Event) :
+    (stepP false p (.ev e)).s = step p.s e ∧ (stepP false p (.ev e)).paused = false := by
+  cases e <;> simp [stepP, step, hp, pollNthP] <;> (try (split <;> rfl))
+
+theorem foldl_running (p : PState) (hp : p.paused = false) (es : List Event) :
+    ((es.map PEvent.ev).foldl (stepP false) p).s = es.foldl step p.s ∧
+    ((es.map PEvent.ev).foldl (stepP false) p).paused = false := by
+  induction es generalizing p with
+  | nil => exact ⟨rfl, hp⟩
+  | cons e es ih =>
+    obtain ⟨h1, h2⟩ := stepP_running p hp e
+    have := ih _ h2
+    simp only [List.map_cons, List.foldl_cons]
+    rw [h1] at this
+    exact this
+
+/-- ... and so are events other than polls while it is paused -/
+theorem stepP_nopoll (p : PState) (e : Event) (he : ∀ j, e ≠ .poll j) :
+    (stepP false p (.ev e)).s = step p.s e ∧ (stepP false p (.ev e)).paused = p.paused := by
+  cases e <;> first | exact absurd rfl (he _) | simp [stepP, step]
+
+theorem foldl_nopoll (p : PState) (es : List Event) (hes : ∀ e ∈ es, ∀ j, e ≠ .poll j) :
+    ((es.map PEvent.ev).foldl (stepP false) p).s = es.foldl step p.s ∧
+    ((es.map PEvent.ev).foldl (stepP false) p).paused = p.paused := by
+  induction es generalizing p with
+  | nil => exact ⟨rfl, rfl⟩
+  | cons e es ih =>
+    obtain ⟨h1, h2⟩ := stepP_nopoll p e (hes e (by simp))
+    have := ih (stepP false p (.ev e)) (fun x hx => hes x (by simp [hx]))
+    simp only [List.map_cons, List.foldl_cons]
+    rw [h1, h2] at this
+    exact this
+
+/-- the shape of history the partial is about: anything (owner running); `pause`; writes, refetches, completions,
+attachments — anything but polls; ONE poll (of any woken task: if it is the derived's, the notification is
+swallowed); `resume`; a source write; anything (owner running) -/
+def onePause (es₁ ws : List Event) (j i : Nat) (v : Val) (es₂ : List Event) : List PEvent :=
+  es₁.map .ev ++ [.pause] ++ ws.map .ev ++ [.ev (.poll j), .resume, .ev (.set i v)] ++ es₂.map .ev
+
+/-- the state just before the write after `resume` -/
+def beforeWrite (c : Cfg) (es₁ ws : List Event) (j : Nat) : State :=
+  (pollNthP true (ws.foldl step (run c es₁)) j).1
+
+theorem runP_onePause (c : Cfg) (es₁ ws : List Event) (hws : ∀ e ∈ ws, ∀ k, e ≠ .poll k) (j i : Nat) (v : Val)
+    (es₂ : List Event) :
+    (runP false c (onePause es₁ ws j i v es₂)).s = es₂.foldl step (setSrc (beforeWrite c es₁ ws j) i v) := by
+  unfold runP onePause beforeWrite
+  simp only [List.foldl_append, List.foldl_cons, List.foldl_nil]
+  obtain ⟨a1, a2⟩ := foldl_running { s := init c } rfl es₁
+  generalize (es₁.map PEvent.ev).foldl (stepP false) { s := init c } = p1 at a1 a2
+  obtain ⟨b1, b2⟩ := foldl_nopoll (stepP false p1 .pause) ws hws
+  generalize (ws.map PEvent.ev).foldl (stepP false) (stepP false p1 .pause) = p2 at b1 b2
+  have hp2 : p2.s = ws.foldl step (run c es₁) := by rw [b1]; simp [stepP, a1, run]
+  have hpa : p2.paused = true := by rw [b2]; simp [stepP]
+  have h3 : (stepP false (stepP false (stepP false p2 (.ev (.poll j))) .resume) (.ev (.set i v))).s =
+      setSrc (pollNthP true (ws.foldl step (run c es₁)) j).1 i v := by
+    simp [stepP, hp2, hpa]
+  have h4 : (stepP false (stepP false (stepP false p2 (.ev (.poll j))) .resume) (.ev (.set i v))).paused = false := by
+    simp [stepP]
+  obtain ⟨c1, _⟩ := foldl_running _ h4 es₂
+  rw [c1, h3]
+
+/-- PARTIAL of `C10_resume_then_write_settles_open`: histories with ONE pause in which the paused owner's task is polled
+at most once (everything before the pause, between `pause` and that poll except polls, and after the write is
+arbitrary), and the write after `resume` goes to a source the derived reads (`hsub`: through the memo, or a source in
+its dependency set — a write to another source notifies nobody).  Then every settled point after that write has
+loading off and the value for the latest inputs — whatever was swallowed under pause.  Missing for the full statement:
+an invariant for arbitrary paused segments (several polls under pause, several pauses). -/
+theorem C10_resume_then_write_settles_partial (c : Cfg) (es₁ ws : List Event)
+    (hws : ∀ e ∈ ws, ∀ k, e ≠ .poll k) (j i : Nat) (v : Val) (es₂ : List Event)
+    (hi : i < (beforeWrite c es₁ ws j).src.length)
+    (hsub : (beforeWrite c es₁ ws j).viaMemo = true ∨ i ∈ (beforeWrite c es₁ ws j).dSub)
+    (hs : settled (runP false c (onePause es₁ ws j i v es₂)).s = true) :
+    (runP false c (onePause es₁ ws j i v es₂)).s.loading = false ∧
+    (runP false c (onePause es₁ ws j i v es₂)).s.value = expected (runP false c (onePause es₁ ws j i v es₂)).s := by
+  have hg : Good (ws.foldl step (run c es₁)) := by
+    have : Good (run c es₁) := (Good.init c).foldl es₁
+    exact this.foldl ws
+  have hb : Good (setSrc (beforeWrite c es₁ ws j) i v) := by
+    unfold beforeWrite at hi hsub ⊢
+    unfold pollNthP at hi hsub ⊢
+    dsimp only at hi hsub ⊢
+    split at hi
+    · rename_i hd
+      simp only [hd] at hsub ⊢
+      exact hg.write_after_paused_poll i v hi hsub
+    · rename_i hd
+      exact (hg.step (.poll j)).step (.set i v)
+  rw [runP_onePause c es₁ ws hws j i v es₂] at hs ⊢
+  have hfin := hb.foldl es₂
+  exact settles_of hfin.i hfin.r hs
+
+/-- non-vacuity: the witness history of `C10_resume_then_write_settles_witness` has this shape and satisfies the
+hypotheses (the notification IS swallowed in it) -/
+example :
+    (runP false {} (onePause [.poll 0, .complete 0, .poll 0] [.set 0 2] 0 0 3 [.poll 0, .complete 1, .poll 0])).s.value
+      = some (fetchFn [3]) :=
+  ((C10_resume_then_write_settles_partial {} [.poll 0, .complete 0, .poll 0] [.set 0 2]
+    (by intro e he k; simp at he; subst he; intro h; cases h) 0 0 3
+    [.poll 0, .complete 1, .poll 0] (by decide) (by decide) (by decide)).2).trans (by decide)
 
 end Leptos.Async
